@@ -93,6 +93,20 @@ structure FrameEntries (h : HeaderMap) (cc chunked : Bool) (te : Bytes) (cl : Op
   clParse : ∀ p, cl = some p → parseContentLength1 p.1 = some p.2
   trGet : h.get Req.H1.kTrailer = tr.map fun v => [v]
 
+/-- `FrameEntries` without the "no Pragma field" clause (round 5). -/
+structure FrameEntries0 (h : HeaderMap) (cc chunked : Bool) (te : Bytes) (cl : Option (Bytes × Nat))
+    (tr : Option Bytes) : Prop where
+  conn : h.get kConnection = if cc then some [vClose] else none
+  teGet : h.get kTransferEncoding = if chunked then some [te] else none
+  teLow : lower te = vChunked
+  clGet : h.get kContentLength = cl.map fun p => [p.1]
+  clParse : ∀ p, cl = some p → parseContentLength1 p.1 = some p.2
+  trGet : h.get Req.H1.kTrailer = tr.map fun v => [v]
+
+theorem FrameEntries.to0 {h : HeaderMap} {cc chunked : Bool} {te : Bytes} {cl : Option (Bytes × Nat)}
+    {tr : Option Bytes} (hE : FrameEntries h cc chunked te cl tr) : FrameEntries0 h cc chunked te cl tr :=
+  ⟨hE.conn, hE.teGet, hE.teLow, hE.clGet, hE.clParse, hE.trGet⟩
+
 /-- The header the caller sees: the map minus what `readTransfer` deletes. -/
 def afterTransfer (h : HeaderMap) (cc chunked delCL delTr : Bool) : HeaderMap :=
   let h1 := if cc then h.del kConnection else h
@@ -211,12 +225,12 @@ theorem fixTrailer_origin (h : HeaderMap) (chunked : Bool) (tr : Option Bytes)
 /-- **`readTransfer` on an origin-written head** (HTTP/1.1). The origin sends `Content-Length`
 or `Transfer-Encoding: chunked` (not both) or neither, optionally `Connection: close`, and with
 chunked coding optionally a `Trailer` announcement. -/
-theorem readTransfer_origin (isHead : Bool) (sl : StatusLine) (hmaj : sl.major = 1) (hmin : sl.minor = 1)
+theorem readTransfer_core (isHead : Bool) (sl : StatusLine) (hmaj : sl.major = 1) (hmin : sl.minor = 1)
     (h : HeaderMap) (cc chunked : Bool) (te : Bytes) (cl : Option (Bytes × Nat)) (tr : Option Bytes)
-    (hE : FrameEntries h cc chunked te cl tr)
+    (hE : FrameEntries0 h cc chunked te cl tr)
     (hexcl : chunked = true → cl = none) (htrc : tr.isSome = true → chunked = true)
     (hkeys : ∀ tv, tr = some tv → (declKeys tv).any badTrailerKey = false) :
-    ∃ msg, readTransfer isHead sl (fixPragmaCacheControl h) = some msg ∧ msg.sl = sl ∧
+    ∃ msg, readTransfer isHead sl h = some msg ∧ msg.sl = sl ∧
       msg.teChunked = chunked ∧
       msg.trailerDecl = trailerDeclOf tr ∧
       (let noBody := isHead || !Req.H1.bodyAllowedForStatus sl.code
@@ -226,7 +240,7 @@ theorem readTransfer_origin (isHead : Bool) (sl : StatusLine) (hmaj : sl.major =
           else framingOfCL cl) ∧
        msg.header = afterTransfer h cc chunked
          (!noBody && (chunked || cl.isNone)) tr.isSome) := by
-  obtain ⟨hpr, hconn, hte, hlow, hcl, hclp, htr⟩ := hE
+  obtain ⟨hconn, hte, hlow, hcl, hclp, htr⟩ := hE
   obtain ⟨d1, d2, d3, d4, d5, d6, _, _, _, _⟩ := keys_distinct
   -- lookups survive the deletions of other keys
   have hte1 : (if cc then h.del kConnection else h).get kTransferEncoding =
@@ -236,7 +250,7 @@ theorem readTransfer_origin (isHead : Bool) (sl : StatusLine) (hmaj : sl.major =
         else (if cc then h.del kConnection else h)).get kContentLength = cl.map fun p => [p.1] := by
     cases cc <;> cases chunked <;> simp [get_del, hcl, Ne.symm d2, Ne.symm d4]
   unfold readTransfer
-  rw [fixPragma_absent h hpr, hmaj, hmin, shouldClose_11 h cc hconn]
+  rw [hmaj, hmin, shouldClose_11 h cc hconn]
   simp only [show ¬ ((1 : Nat) = 0 ∧ (1 : Nat) = 0) by decide, if_false]
   rw [parseTE_11 _ chunked te hlow hte1]
   simp only
@@ -341,6 +355,90 @@ end Req.C02
 namespace Req.C02
 open Req.Proto Req.Ascii Req.H1
 
+/-- `readTransfer_core` behind `fixPragmaCacheControl` for a head without a `Pragma` field (the
+round-4 statement). -/
+theorem readTransfer_origin (isHead : Bool) (sl : StatusLine) (hmaj : sl.major = 1) (hmin : sl.minor = 1)
+    (h : HeaderMap) (cc chunked : Bool) (te : Bytes) (cl : Option (Bytes × Nat)) (tr : Option Bytes)
+    (hE : FrameEntries h cc chunked te cl tr)
+    (hexcl : chunked = true → cl = none) (htrc : tr.isSome = true → chunked = true)
+    (hkeys : ∀ tv, tr = some tv → (declKeys tv).any badTrailerKey = false) :
+    ∃ msg, readTransfer isHead sl (fixPragmaCacheControl h) = some msg ∧ msg.sl = sl ∧
+      msg.teChunked = chunked ∧
+      msg.trailerDecl = trailerDeclOf tr ∧
+      (let noBody := isHead || !Req.H1.bodyAllowedForStatus sl.code
+       msg.framing =
+         (if noBody then RespFraming.none
+          else if chunked then RespFraming.chunked
+          else framingOfCL cl) ∧
+       msg.header = afterTransfer h cc chunked
+         (!noBody && (chunked || cl.isNone)) tr.isSome) := by
+  rw [fixPragma_absent h hE.pragma]
+  exact readTransfer_core isHead sl hmaj hmin h cc chunked te cl tr hE.to0 hexcl htrc hkeys
+
+/-! ### round 5: heads WITH a `Pragma` field -/
+
+theorem get_set' (m : HeaderMap) (k k' : Bytes) (vs : List Bytes) (h : k' ≠ k) :
+    (m.set k vs).get k' = m.get k' := by
+  induction m with
+  | nil =>
+    have : (k' == k) = false := by simpa using h
+    simp [HeaderMap.set, HeaderMap.get, List.lookup, this]
+  | cons p ps ih =>
+    rcases p with ⟨pk, pvs⟩
+    simp only [HeaderMap.set, HeaderMap.get] at ih ⊢
+    by_cases hpk : pk = k
+    · subst hpk
+      have : (k' == pk) = false := by simpa using h
+      simp [List.lookup, this]
+    · have hb : (pk == k) = false := by simpa using hpk
+      simp only [hb, Bool.false_eq_true, if_false, List.lookup]
+      cases (k' == pk)
+      · exact ih
+      · rfl
+
+/-- `fixPragmaCacheControl` touches the `Cache-Control` entry only. -/
+theorem get_fixPragma_other (h : HeaderMap) (k : Bytes) (hk : k ≠ kCacheControl) :
+    (fixPragmaCacheControl h).get k = h.get k := by
+  unfold fixPragmaCacheControl
+  split
+  · split
+    · exact get_set' h kCacheControl k _ hk
+    · rfl
+  · rfl
+
+theorem cacheControl_distinct :
+    kConnection ≠ kCacheControl ∧ kTransferEncoding ≠ kCacheControl ∧ kContentLength ≠ kCacheControl ∧
+    Req.H1.kTrailer ≠ kCacheControl := by decide
+
+theorem FrameEntries0.fixPragma {h : HeaderMap} {cc chunked : Bool} {te : Bytes} {cl : Option (Bytes × Nat)}
+    {tr : Option Bytes} (hE : FrameEntries0 h cc chunked te cl tr) :
+    FrameEntries0 (fixPragmaCacheControl h) cc chunked te cl tr := by
+  obtain ⟨c1, c2, c3, c4⟩ := cacheControl_distinct
+  exact ⟨by rw [get_fixPragma_other h _ c1]; exact hE.conn,
+         by rw [get_fixPragma_other h _ c2]; exact hE.teGet, hE.teLow,
+         by rw [get_fixPragma_other h _ c3]; exact hE.clGet, hE.clParse,
+         by rw [get_fixPragma_other h _ c4]; exact hE.trGet⟩
+
+/-- **`readTransfer` on an origin-written head, `Pragma` allowed**: the framing verdict is the
+same; the header the caller sees is what `fixPragmaCacheControl` made of the map, minus what
+`readTransfer` deletes. -/
+theorem readTransfer_origin_pragma (isHead : Bool) (sl : StatusLine) (hmaj : sl.major = 1) (hmin : sl.minor = 1)
+    (h : HeaderMap) (cc chunked : Bool) (te : Bytes) (cl : Option (Bytes × Nat)) (tr : Option Bytes)
+    (hE : FrameEntries0 h cc chunked te cl tr)
+    (hexcl : chunked = true → cl = none) (htrc : tr.isSome = true → chunked = true)
+    (hkeys : ∀ tv, tr = some tv → (declKeys tv).any badTrailerKey = false) :
+    ∃ msg, readTransfer isHead sl (fixPragmaCacheControl h) = some msg ∧ msg.sl = sl ∧
+      msg.teChunked = chunked ∧
+      msg.trailerDecl = trailerDeclOf tr ∧
+      (let noBody := isHead || !Req.H1.bodyAllowedForStatus sl.code
+       msg.framing =
+         (if noBody then RespFraming.none
+          else if chunked then RespFraming.chunked
+          else framingOfCL cl) ∧
+       msg.header = afterTransfer (fixPragmaCacheControl h) cc chunked
+         (!noBody && (chunked || cl.isNone)) tr.isSome) :=
+  readTransfer_core isHead sl hmaj hmin (fixPragmaCacheControl h) cc chunked te cl tr hE.fixPragma hexcl htrc hkeys
+
 /-! ### a whole head, and the 1xx loop -/
 
 /-- A response head as the origin writes it. -/
@@ -391,6 +489,38 @@ theorem parseHead_origin (isHead : Bool) (o : OHead) (ho : o.OK)
   obtain ⟨sl, hsl, hcode, hmaj, hmin⟩ := parseStatusLine_origin o.d1 o.d2 o.d3 o.reason ho.1 ho.2.1 ho.2.2.1
   obtain ⟨msg, hrt, hmsl, h2, h3, h4⟩ :=
     readTransfer_origin isHead sl hmaj hmin o.hmap cc chunked te cl tr hE hexcl htrc hkeys
+  have hline : Req.H1.readLine (o.wire ++ R) =
+      some (statusWire o.d1 o.d2 o.d3 o.reason, blockWire o.fs ++ R) := by
+    have := h1_readLine_crlf (statusWire o.d1 o.d2 o.d3 o.reason) (blockWire o.fs ++ R) (statusWire_no_lf o ho)
+    simpa [OHead.wire, List.append_assoc] using this
+  refine ⟨msg, ?_, by rw [hmsl, hcode]; rfl, h2, h3, ?_⟩
+  · unfold Req.H1.parseHead
+    simp only [hline, hsl, readMIMEHeader_block o.fs ho.2.2.2.2 R]
+    have : hmapOf (fieldsOf o.fs) = o.hmap := rfl
+    rw [this, hrt]
+  · have hc : sl.code = o.code := by rw [hcode]; rfl
+    rw [hc] at h4
+    exact h4
+
+/-- `parseHead_origin` for a head that may carry a `Pragma` field (round 5): the header the
+caller sees is `fixPragmaCacheControl` of the map, minus what `readTransfer` deletes. -/
+theorem parseHead_origin_pragma (isHead : Bool) (o : OHead) (ho : o.OK)
+    (cc chunked : Bool) (te : Bytes) (cl : Option (Bytes × Nat)) (tr : Option Bytes)
+    (hE : FrameEntries0 o.hmap cc chunked te cl tr)
+    (hexcl : chunked = true → cl = none) (htrc : tr.isSome = true → chunked = true)
+    (hkeys : ∀ tv, tr = some tv → (declKeys tv).any badTrailerKey = false) (R : Bytes) :
+    ∃ msg, Req.H1.parseHead isHead (o.wire ++ R) = some (msg, R) ∧ msg.sl.code = o.code ∧
+      msg.teChunked = chunked ∧ msg.trailerDecl = trailerDeclOf tr ∧
+      (let noBody := isHead || !Req.H1.bodyAllowedForStatus o.code
+       msg.framing =
+         (if noBody then RespFraming.none
+          else if chunked then RespFraming.chunked
+          else framingOfCL cl) ∧
+       msg.header = afterTransfer (fixPragmaCacheControl o.hmap) cc chunked
+         (!noBody && (chunked || cl.isNone)) tr.isSome) := by
+  obtain ⟨sl, hsl, hcode, hmaj, hmin⟩ := parseStatusLine_origin o.d1 o.d2 o.d3 o.reason ho.1 ho.2.1 ho.2.2.1
+  obtain ⟨msg, hrt, hmsl, h2, h3, h4⟩ :=
+    readTransfer_origin_pragma isHead sl hmaj hmin o.hmap cc chunked te cl tr hE hexcl htrc hkeys
   have hline : Req.H1.readLine (o.wire ++ R) =
       some (statusWire o.d1 o.d2 o.d3 o.reason, blockWire o.fs ++ R) := by
     have := h1_readLine_crlf (statusWire o.d1 o.d2 o.d3 o.reason) (blockWire o.fs ++ R) (statusWire_no_lf o ho)
